@@ -17,7 +17,24 @@ RECOVERY_TRUST = [KAFKA_CLIENT + "; cursor contract: after Assign(p@x) the clien
                   "stale/out-of-order records only via explicit 'msg' ops", JSON_CODEC,
                   "golang.org/x/time/rate limiter replaced by an unlimited one in this component (rate is C19)"]
 
+RECEIVER_TRUST = ["encoding/json + base64 wire codec: outside the model (a decodable record is its fields); the harness decodes every produced record "
+                  "with a mirror struct and compares the fields", KAFKA_CLIENT, "records are written by the REAL KafkaMessageSender over a scripted producer"]
+
 PROPS = {
+    "C10": dict(
+        components=[("receiver", 2000, 100000)],
+        trusted=RECEIVER_TRUST,
+        assumptions=["end-of-partition signals name partitions 0..n-1 of the topic; types without '-' (C12's restriction); "
+                     "a JSON value of the right shape always decodes (e.g. {} decodes to the empty message)"],
+        not_yet_proved=["C10 bridge: specRun on the model's own deliveries (model satisfies the Spec monitor for every history) — needs a permutation "
+                        "argument between the insertion-ordered buffer and `latest`; the clause is instead proved on the buffer lookup (catching_up, release)"],
+    ),
+    "C12": dict(
+        components=[("receiver", 2000, 100000)],
+        seed_offset=104729,
+        trusted=RECEIVER_TRUST,
+        assumptions=["types without '-' (stated restriction); collision witness for types with '-' is a theorem"],
+    ),
     "C07": dict(
         components=[("recovery", 1500, 50000)],
         trusted=RECOVERY_TRUST,
